@@ -40,6 +40,9 @@ case "$fault" in
   stderr) echo "$cmd: error: simulated failure" >&2; echo rejected > "$c.res"; exit 0;;
   garbage) echo "Unable to contact controller"; echo rejected > "$c.res"; exit 0;;
   killparent) echo rejected > "$c.res"; kill -9 $PPID; exit 1;;
+  depfail) # Slurm refuses a submission whose afterok list names a job it has no record of any more
+    case " $* " in *--dependency=*) echo "sbatch: error: Batch job submission failed: Job dependency problem" >&2; echo rejected > "$c.res"; exit 1;; esac
+    echo "$cmd: simulated failure" >&2; echo rejected > "$c.res"; exit 1;;
 esac
 case "$cmd" in
   sbatch|qsub|bsub)
